@@ -3,6 +3,7 @@ module verif/harness
 go 1.23
 
 require (
+	github.com/anishathalye/porcupine v1.3.0
 	github.com/elastic/go-seccomp-bpf v0.0.0
 	github.com/elastic/go-ucfg v0.8.8
 	golang.org/x/net v0.24.0
